@@ -257,7 +257,7 @@ Fixpoint xdepth (v : xvalue) : nat :=
   | XList xs | XTuple xs => S (fold_right (fun x n => Nat.max (xdepth x) n) 0 xs)
   | XDict kvs => S (fold_right (fun kv n => Nat.max (xdepth (snd kv)) n) 0 kvs)
   | XObj _ avs | XNamed _ avs => S (fold_right (fun av n => Nat.max (xdepth (snd av)) n) 0 avs)
-  | XSet _ | XFrozen _ => 2      (* atoms one level down, their bound methods two *)
-  | XAtom _ => 1      (* a str searched as an object: its bound methods are one level down *)
+  | XSet _ | XFrozen _ => 3
+  | XAtom _ => 2      (* a str searched as an object: its bound methods (depth 1) are one level down *)
   | _ => 0
   end.
